@@ -467,6 +467,10 @@ class C01(World):
         tol = 1e-5 if name == "face_adjacency_radius" else (1e-6 if name in ANGLE_OBS else 1e-9)
         if name in ("nearest_on_surface", "signed_distance"):
             tol = 1e-4
+        if name == "vertex_normals":
+            # an angle-weighted sum of face normals that nearly cancels is unitised: transported (1e-16 accurate) normals and
+            # recomputed ones then differ by 1e-16 / |sum| (1e-8 seen in the thorough tier); staleness gives O(0.1)
+            tol = 1e-6
         bad = same(got, want, tol, name)
         if bad:
             ctx.fail(oracle, name, f"after {st['last_mut']} ({memo} before it): {bad}")
